@@ -2,6 +2,7 @@ package rewriter
 
 const (
 	cstIterVar  = "ɪʇ" // it۰
+	cstArrayVar = "ɐɹ" // ar۰
 	cstMoveNext = "MoveNext"
 	cstCurrent  = "Current"
 
